@@ -28,12 +28,15 @@ type Model struct {
 	Acked map[uint64]bool
 	// Truncated marks indexes that a tail truncation removed at some point.
 	Truncated map[uint64]bool
+	// U64 marks stable keys whose latest value was written with SetUint64 (the
+	// result of GetUint64 is only defined for those, and for unset keys).
+	U64 map[string]bool
 	// Deleted is set once a DeleteRange removed something on this path.
 	Deleted bool
 }
 
 func NewModel() *Model {
-	return &Model{E: map[uint64]*raft.Log{}, Stable: map[string][]byte{}, Hist: map[uint64][]string{}, Acked: map[uint64]bool{}, Truncated: map[uint64]bool{}}
+	return &Model{E: map[uint64]*raft.Log{}, Stable: map[string][]byte{}, Hist: map[uint64][]string{}, Acked: map[uint64]bool{}, Truncated: map[uint64]bool{}, U64: map[string]bool{}}
 }
 
 func (m *Model) Clone() *Model {
@@ -41,6 +44,10 @@ func (m *Model) Clone() *Model {
 		Hist: make(map[uint64][]string, len(m.Hist)), Acked: make(map[uint64]bool, len(m.Acked)), Truncated: make(map[uint64]bool, len(m.Truncated))}
 	for k, v := range m.Truncated {
 		c.Truncated[k] = v
+	}
+	c.U64 = make(map[string]bool, len(m.U64))
+	for k, v := range m.U64 {
+		c.U64[k] = v
 	}
 	for k, v := range m.E {
 		c.E[k] = v
@@ -131,6 +138,7 @@ func (m *Model) DeleteRange(min, max uint64) error {
 }
 
 func (m *Model) SetStable(k string, v []byte) {
+	delete(m.U64, k)
 	if v == nil {
 		delete(m.Stable, k)
 		return
